@@ -80,10 +80,11 @@ fn build_worlds(thorough: bool) -> (Vec<WorldSpec>, Value) {
         let u2 = uni::u2_only();
         u2_len = u2.len();
         for t in &u2 {
-            for pos in uni::POSITIONS {
-                push(&mut ws, t, pos, false, "");
-                if pos.has_async_form() {
-                    push(&mut ws, t, pos, true, "");
+            for (pi, pos) in uni::POSITIONS.iter().enumerate() {
+                push(&mut ws, t, *pos, false, "");
+                // depth 2: `async func` at the eight plain function positions only
+                if pi < 8 {
+                    push(&mut ws, t, *pos, true, "");
                 }
                 n_u2 += 1;
             }
